@@ -153,7 +153,7 @@ func runPerio(c *ctx) {
 		ps, err := perio.OpenServer(wg)
 		if err != nil {
 			fmt.Fprintln(os.Stderr, "harness: perio:", err)
-			os.Exit(3)
+			die(3)
 		}
 		rec := &perioRec{}
 		ps.Handle(rec, rec.query)
